@@ -158,7 +158,7 @@ def monitor(prop, progs, run):
         elif run.status == "hang":
             msgs.append("hang (no scheduling progress)")
         elif run.status == "abort":
-            msgs.append("aborted: " + run.stderr.strip().split("\n")[-1][:200])
+            msgs.append("aborted: " + lib.err_summary(run.stderr))
         probe = False
         for t in events:
             if t[0] == "probe":
